@@ -64,7 +64,8 @@ def source_tie(pid):
     roots = TIE_ROOTS.get(pid)
     if not roots: return [], dict(functions=0)
     if "rep" not in _tie_cache:
-        rc, out = sh([sys.executable, os.path.join(VERIF, "tools", "t12.py")], env=dict(ENV, VERIF_REPO=REPO))
+        if not os.environ.get("VERIF_T12_DONE"):      # (setup.sh runs T12 once, then warms the per-property results in parallel)
+            rc, out = sh([sys.executable, os.path.join(VERIF, "tools", "t12.py")], env=dict(ENV, VERIF_REPO=REPO))
         rep = json.load(open(os.path.join(COQ, "gen", "t12_report.json")))
         ok, mout = coq_make(["gen/SrcTie.vo", "Proofs/SrcTieManual.vo"])
         failing = {}
